@@ -49,6 +49,10 @@ def shapes(tier, seed):
         out.append(('date', 'header', n))
         out.append(('date', 'query', n))
         out.append(('date', 'date-header', n))
+    # well-formed timestamps with long fractions (digit runs that overflow u32 / u64 / u128 when taken as one number)
+    for n in ((10, 20, 40) if q else (10, 19, 20, 21, 39, 40, 64)):
+        out.append(('date-frac', 'header', n))
+        out.append(('date-frac', 'query', n))
     for n in range(0, (4 if q else 5)):
         out.append(('ctype', n))
     for n in range(0, (3 if q else 4)):
@@ -137,6 +141,20 @@ def run_shape(prog, shape, tier, seed, res):
                     ctx.assume(e.v != 0x26)
                 q = conc_bytes('X-Amz-Algorithm=AWS4-HMAC-SHA256&X-Amz-Credential=') + cred + conc_bytes(
                     '&X-Amz-Date=' + TS + '&X-Amz-SignedHeaders=host&X-Amz-Signature=' + '0' * 64)
+                rq = Req('GET', b'/', q, [('host', conc_bytes('h'))])
+            return rq, pipeline(m, rq)
+        if kind == 'date-frac':
+            d = []
+            for i in range(shape[2]):
+                b = ctx.fresh_bv('fd%d' % i, 8)
+                ctx.assume(z3.And(z3.UGE(b, 0x30), z3.ULE(b, 0x39)))
+                d.append(Int('u8', b))
+            text = conc_bytes('20150830T123600.') + d + conc_bytes('Z')
+            if shape[1] == 'header':
+                rq = Req('GET', b'/', None, [('host', conc_bytes('h')), ('x-amz-date', text), ('authorization', conc_bytes(GOOD_AUTHZ))])
+            else:
+                q = conc_bytes('X-Amz-Algorithm=AWS4-HMAC-SHA256&X-Amz-Credential=AKID%2F' + SCOPE.replace('/', '%2F') + '&X-Amz-Date=') + text + \
+                    conc_bytes('&X-Amz-SignedHeaders=host&X-Amz-Signature=' + '0' * 64)
                 rq = Req('GET', b'/', q, [('host', conc_bytes('h'))])
             return rq, pipeline(m, rq)
         if kind == 'date':
